@@ -1,1 +1,34 @@
-//! placeholder
+//! Record injection: a Kani stub for `mapping::parse_proguard_record` that
+//! serves records from a harness-provided array instead of parsing text.
+//!
+//! The position in the stream is carried by the *remaining slice length*
+//! exactly like the real iterator carries it by the remaining bytes, so cloned
+//! or peeked iterators stay independent. The dummy source has one byte per
+//! record. Stream items are `Result<ProguardRecord, ParseError>`, so error
+//! items can be injected too (the builders' `filter_map(Result::ok)` runs for
+//! real).
+use crate::mapping::{ParseError, ProguardRecord};
+
+pub type Item = Result<ProguardRecord<'static>, ParseError<'static>>;
+
+pub static DUMMY: [u8; 64] = [b'x'; 64];
+
+static mut RECS: *const Item = core::ptr::null();
+static mut TOTAL: usize = 0;
+
+/// Install the stream; returns the dummy source bytes to build the mapping from.
+pub fn set(recs: &[Item]) -> &'static [u8] {
+    unsafe {
+        RECS = recs.as_ptr();
+        TOTAL = recs.len();
+    }
+    &DUMMY[..recs.len()]
+}
+
+/// Stub with the exact signature of `mapping::parse_proguard_record`.
+pub fn parse_stub(bytes: &[u8]) -> (Result<ProguardRecord, ParseError>, &[u8]) {
+    let total = unsafe { TOTAL };
+    let idx = total - bytes.len();
+    let item: Item = unsafe { (*RECS.add(idx)).clone() };
+    (item, &bytes[1..])
+}
